@@ -14,7 +14,9 @@
   Props/C19.lean give source order (`per_key_order_partial`: strictly increasing, nothing
   twice inside a segment attempt) and completeness of an acknowledged batch
   (`redirect_never_loses`, `unexecuted_blocks_ok`). Those facts are the admissibility
-  conditions of a batch here.
+  conditions of a batch here. Model/ClusterExec.lean is the operational model below this
+  automaton: Proofs/ClusterExec.lean proves that its runs are runs of this automaton, i.e. that
+  the conditions hold (and `Disciplined` / `PrefixRun` with them).
 
   BLOCKING modes only (Batch.Exec / transactional batch): a batch is sent when the previous
   one has been answered, and the position is stored only after the data commands of the batch
